@@ -751,6 +751,12 @@ type c03Profile struct {
 //	v4 hosts 10.1.N.H (N in 0..2, H in 1..3)      /24 subnets 10.1.N.0
 //	v6 hosts fd00:0:0:N00::H (N in 0..1)           /56 subnets
 //	allow-listed networks: 10.1.0.0/24 (any peer), 10.1.1.0/24 (peer-bound), fd00::/56 (any peer)
+//	v4-mapped v6 form ::ffff:10.1.N.H of the v4 hosts: an IPv6 key for the conn limiter
+//	(netip), an IPv4 address for the allow-list (net.IPNet.Contains unmaps)
+func c03Mapped(n, h int) c03Ep {
+	return c03Ep{hasIP: true, v6: true, w: [4]uint32{0, 0, 0xffff, 10<<24 | 1<<16 | uint32(n)<<8 | uint32(h)}}
+}
+
 func c03GenEp(rd *verifh.Rand) c03Ep {
 	switch rd.Intn(10) {
 	case 0:
@@ -758,6 +764,8 @@ func c03GenEp(rd *verifh.Rand) c03Ep {
 	case 1, 2, 3:
 		n, h := rd.Intn(2), 1+rd.Intn(3)
 		return c03Ep{hasIP: true, v6: true, w: [4]uint32{0xfd000000, uint32(n) << 8, 0, uint32(h)}}
+	case 4:
+		return c03Mapped(rd.Intn(3), 1+rd.Intn(3))
 	default:
 		n, h := rd.Intn(3), 1+rd.Intn(3)
 		return c03Ep{hasIP: true, w: [4]uint32{10<<24 | 1<<16 | uint32(n)<<8 | uint32(h)}}
@@ -984,8 +992,127 @@ func (g *c03Gen) genSize(t c03Sid) int64 {
 
 var c03Prios = []int{0, 1, 127, 128, 200, 254, 255}
 
+func (g *c03Gen) reserve(t c03Sid, sz int64) {
+	if sz > g.memLeft {
+		sz = 5
+	}
+	if g.r.do(c03Op{code: 6, t: t, sz: sz, prio: 255}) == 0 && sz > 0 {
+		g.memLeft -= sz
+	}
+}
+
+// directed: nested spans (a span of a span, sometimes three levels) closed
+// OUTER first while the inner one still holds memory and the owner keeps
+// holdings of its own, so that a release that reaches the owner twice is not
+// hidden by the clamp at zero
+func (g *c03Gen) nestedSpans() {
+	rd, r := g.rd, g.r
+	owner := g.memTarget()
+	if h, ok := g.pickHandle(9, 10, 11); ok && !g.doneH[h] && rd.Chance(3, 4) {
+		owner = h
+	}
+	small := func() int64 { return int64(1 + rd.Intn(3000)) }
+	if rd.Chance(4, 5) {
+		g.reserve(owner, small()+int64(rd.Intn(3))*1000)
+	}
+	newSpan := func(t c03Sid) (c03Sid, bool) {
+		k := g.nextSpan
+		g.nextSpan++
+		if r.do(c03Op{code: 8, t: t, k: k}) != 0 {
+			return c03Sid{}, false
+		}
+		return c03Sid{11, k, 0}, true
+	}
+	a, ok := newSpan(owner)
+	if !ok {
+		return
+	}
+	if rd.Chance(1, 2) {
+		g.reserve(a, small())
+	}
+	b, ok := newSpan(a)
+	if !ok {
+		return
+	}
+	g.reserve(b, small())
+	inner := []c03Sid{b}
+	if rd.Chance(1, 3) {
+		if c, ok := newSpan(b); ok {
+			g.reserve(c, small())
+			inner = append(inner, c)
+		}
+	}
+	if rd.Chance(1, 3) {
+		if s2, ok := newSpan(owner); ok { // a sibling of the outer span keeps the owner busy
+			g.reserve(s2, small())
+		}
+	}
+	r.out.Cover("scenario.nested_spans")
+	// outer first
+	r.do(c03Op{code: 9, t: a})
+	g.doneH[a] = true
+	if rd.Chance(1, 3) && r.own[b] > 1 {
+		r.do(c03Op{code: 7, t: b, sz: 1 + int64(rd.Uint64()%uint64(r.own[b]))})
+	}
+	for i := len(inner) - 1; i >= 0; i-- {
+		if rd.Chance(3, 4) { // otherwise it is closed later by the ordinary steps / the drain
+			if r.own[inner[i]] > 0 {
+				r.out.Cover("scenario.nested_spans.inner_closed_holding_after_outer")
+			}
+			r.do(c03Op{code: 9, t: inner[i]})
+			g.doneH[inner[i]] = true
+		}
+	}
+}
+
+// directed: connections from one v4 host in plain and in v4-mapped v6 form, opened
+// up to and over the per-subnet / per-prefix caps and closed in between (the two
+// forms are different keys for the conn limiter)
+func (g *c03Gen) mappedMix() {
+	rd, r := g.rd, g.r
+	n, h := rd.Intn(3), 1+rd.Intn(3)
+	plain := c03Ep{hasIP: true, w: [4]uint32{10<<24 | 1<<16 | uint32(n)<<8 | uint32(h)}}
+	var opened []int
+	open := func(ep c03Ep) {
+		i := g.nextConn
+		g.nextConn++
+		if r.do(c03Op{code: 1, i: i, inb: rd.Bool(), fd: rd.Bool(), ep: ep}) == 0 {
+			opened = append(opened, i)
+		}
+	}
+	r.out.Cover("scenario.mapped_mix")
+	for k := 1 + rd.Intn(3); k > 0; k-- {
+		open(plain)
+	}
+	var mapped []int
+	for k := 1 + rd.Intn(2); k > 0; k-- {
+		before := len(opened)
+		open(c03Mapped(n, h))
+		if len(opened) > before {
+			mapped = append(mapped, opened[len(opened)-1])
+		}
+	}
+	for _, i := range mapped { // close the mapped ones, keep the plain ones open
+		if rd.Chance(4, 5) {
+			r.do(c03Op{code: 9, t: c03Sid{9, i, 0}})
+			g.doneH[c03Sid{9, i, 0}] = true
+		}
+	}
+	for k := 1 + rd.Intn(4); k > 0; k-- {
+		open(plain)
+	}
+}
+
 func (g *c03Gen) step() {
 	rd, r := g.rd, g.r
+	if rd.Chance(1, 25) {
+		g.nestedSpans()
+		return
+	}
+	if rd.Chance(1, 40) {
+		g.mappedMix()
+		return
+	}
 	x := rd.Intn(100)
 	switch {
 	case x < 17:
@@ -1229,6 +1356,85 @@ func c03Corpus(t testing.TB, out *verifh.Out) {
 		out.Comment("corpus " + name)
 		out.Cover("corpus.cases")
 		r.emit()
+	}
+	// nested spans closed outer-first: the inner span still holds memory, the
+	// connection holds memory of its own and a sibling span
+	run("nested-spans-outer-first", c03BaseCfg(), []c03Op{
+		{code: 1, i: 0, inb: true, fd: true, ep: v4(2, 2)},
+		{code: 2, i: 0, q: 1},
+		{code: 6, t: c03Sid{9, 0, 0}, sz: 2000, prio: 255},
+		{code: 8, t: c03Sid{9, 0, 0}, k: 0},
+		{code: 6, t: c03Sid{11, 0, 0}, sz: 96, prio: 255},
+		{code: 8, t: c03Sid{11, 0, 0}, k: 1},
+		{code: 6, t: c03Sid{11, 1, 0}, sz: 1000, prio: 255},
+		{code: 8, t: c03Sid{11, 1, 0}, k: 2},
+		{code: 6, t: c03Sid{11, 2, 0}, sz: 500, prio: 255},
+		{code: 8, t: c03Sid{9, 0, 0}, k: 3},
+		{code: 6, t: c03Sid{11, 3, 0}, sz: 500, prio: 255},
+		{code: 9, t: c03Sid{11, 0, 0}}, // outer first
+		{code: 7, t: c03Sid{11, 1, 0}, sz: 100},
+		{code: 9, t: c03Sid{11, 2, 0}},
+		{code: 9, t: c03Sid{11, 1, 0}},
+		{code: 9, t: c03Sid{11, 3, 0}},
+		{code: 9, t: c03Sid{9, 0, 0}},
+	})
+	// the same on a View scope (peer), then gc
+	run("nested-spans-outer-first-view", c03BaseCfg(), []c03Op{
+		{code: 6, t: c03Sid{6, 2, 0}, sz: 700, prio: 255},
+		{code: 8, t: c03Sid{6, 2, 0}, k: 0},
+		{code: 8, t: c03Sid{11, 0, 0}, k: 1},
+		{code: 6, t: c03Sid{11, 1, 0}, sz: 300, prio: 255},
+		{code: 9, t: c03Sid{11, 0, 0}},
+		{code: 10},
+		{code: 9, t: c03Sid{11, 1, 0}},
+		{code: 10},
+		{code: 7, t: c03Sid{6, 2, 0}, sz: 700},
+		{code: 10},
+	})
+	// one v4 host in plain and in v4-mapped v6 form against a /32 cap of 2 (and a
+	// v6 /64 rule): the mapped form is an IPv6 key when opened AND when closed
+	{
+		c := c03BaseCfg()
+		c.sub4 = [][2]int{{32, 2}}
+		c.sub6 = [][2]int{{64, 3}}
+		ops := []c03Op{
+			{code: 1, i: 0, inb: true, fd: true, ep: v4(2, 3)},
+			{code: 1, i: 1, inb: true, fd: true, ep: v4(2, 3)},
+			{code: 1, i: 2, inb: true, fd: true, ep: c03Mapped(2, 3)},
+			{code: 1, i: 3, inb: true, fd: true, ep: c03Mapped(2, 3)},
+			{code: 9, t: c03Sid{9, 2, 0}},
+			{code: 9, t: c03Sid{9, 3, 0}},
+			{code: 1, i: 4, inb: true, fd: true, ep: v4(2, 3)}, // still two open plain ones: refused
+			{code: 1, i: 5, inb: false, fd: false, ep: v4(2, 3)},
+			{code: 9, t: c03Sid{9, 0, 0}},
+			{code: 1, i: 6, inb: true, fd: true, ep: v4(2, 3)},
+			{code: 1, i: 7, inb: true, fd: true, ep: c03Mapped(2, 3)},
+			{code: 1, i: 8, inb: true, fd: true, ep: c03Mapped(2, 2)},
+			{code: 1, i: 9, inb: true, fd: true, ep: c03Mapped(2, 1)},
+			{code: 1, i: 10, inb: true, fd: true, ep: c03Mapped(1, 1)}, // same /64: over the v6 cap
+		}
+		run("mapped-v4-in-v6-vs-subnet-cap", c, ops)
+	}
+	// a v4-mapped endpoint inside an allow-listed v4 network: the allow-list sees
+	// the v4 address, the allow-listed network's prefix limit (netip) does not
+	{
+		c := c03BaseCfg()
+		c.lims[0].Conns = 0
+		c.allow = []c03Allow{{p: c03Prefix{w: [4]uint32{10<<24 | 1<<16}, len: 24}, peer: -1},
+			{p: c03Prefix{w: [4]uint32{10<<24 | 1<<16 | 1<<8}, len: 24}, peer: 1}}
+		c.pre4 = []c03PreLim{{p: c03Prefix{w: [4]uint32{10<<24 | 1<<16}, len: 24}, cap: 2}}
+		run("mapped-endpoint-allow-listed", c, []c03Op{
+			{code: 1, i: 0, inb: true, fd: true, ep: c03Mapped(0, 1)},
+			{code: 1, i: 1, inb: true, fd: true, ep: c03Mapped(0, 2)},
+			{code: 1, i: 2, inb: true, fd: true, ep: c03Mapped(0, 3)},
+			{code: 1, i: 3, inb: true, fd: true, ep: c03Mapped(1, 1)},
+			{code: 2, i: 3, q: 2}, // not the allowed peer: transfer to the standard scopes, refused
+			{code: 2, i: 0, q: 2},
+			{code: 9, t: c03Sid{9, 1, 0}},
+			{code: 9, t: c03Sid{9, 3, 0}},
+			{code: 9, t: c03Sid{9, 0, 0}},
+			{code: 9, t: c03Sid{9, 2, 0}},
+		})
 	}
 	// item 6: View reservation on a peer and a protocol scope, then gc
 	run("gc-memory-only-peer", c03BaseCfg(), []c03Op{
